@@ -1760,7 +1760,7 @@ Proof.
     destruct (decide (valid s u)) as [Hu|Hu]; [by destruct (Hv Hu) as [[=] _]|].
     destruct (Hn Hu) as [[= ->] ->]. by apply Hrefl.
   - destruct (nrf_ref u s _ s' Hl H) as [_ Hr].
-    apply Hrefl; [by intros ->|by apply (pure_ref u s _ s')].
+    apply Hrefl; [by intros ->|by apply (pure_ref u s (Err e) s')].
   - destruct (collect_garbage_total roots s L _ s' HI HL H)
       as (_&_&_&_&_&_&[([=]&_)|([= ->]&->&_)]). by apply Hrefl.
   - by destruct (configure_total s b _ s' HI H) as (_&_&_&[=]&_).
@@ -1771,9 +1771,9 @@ Proof.
   - by apply (tsafe_err _ s e s' (nrf_let d u) (tsafe_let d u)).
   - by apply (tsafe_err _ s e s' (nrf_cube d) (tsafe_cube d)).
   - destruct (nrf_support u s _ s' Hl H) as [_ Hr].
-    apply Hrefl; [by intros ->|by apply (pure_support u s _ s')].
+    apply Hrefl; [by intros ->|by apply (pure_support u s (Err e) s')].
   - destruct (nrf_is_essential u v s _ s' Hl H) as [_ Hr].
-    apply Hrefl; [by intros ->|by apply (pure_is_essential u v s _ s')].
+    apply Hrefl; [by intros ->|by apply (pure_is_essential u v s (Err e) s')].
 Qed.
 
 (** ** 15. The counterexample: [find_or_add] with a level that is not above
